@@ -217,6 +217,38 @@ fiber_t* __wrap_fiber_scheduler_next(fiber_scheduler_t* s) {
   return r;
 }
 
+// ---- owner-only operations of the run-queue deques -----------------------------------------
+// push_bottom/pop_bottom of the Chase-Lev deque may only be executed by one kernel thread at a
+// time (the owner): they update `bottom` without synchronisation. Two kernel threads inside such
+// an operation of the same deque at once is a data race on the run queue - a runnable fiber can
+// be dropped or handed out twice (C02). What is flagged is the real overlap, not who calls.
+extern void __real_wsd_work_stealing_deque_push_bottom(wsd_work_stealing_deque_t*, void*);
+extern void* __real_wsd_work_stealing_deque_pop_bottom(wsd_work_stealing_deque_t*);
+static struct { void* d; int in; } dqs[32];
+static int dq_enter(void* d, const char* op) {
+  if (!fmc_is_exploring || !(fmc_omask & FMC_O_OWNER)) return -1;
+  int i = 0;
+  while (i < 32 && dqs[i].d && dqs[i].d != d) i++;
+  if (i == 32) return -1;
+  if (!dqs[i].d) { dqs[i].d = d; dqs[i].in = -1; }
+  int me_ = fmc_tid();
+  if (dqs[i].in >= 0 && dqs[i].in != me_)
+    fmc_fail("run queue: T%d enters %s on a deque while T%d is inside an owner-only operation (push_bottom/pop_bottom) of the same deque: two owners at once", me_, op, dqs[i].in);
+  dqs[i].in = me_;
+  return i;
+}
+void __wrap_wsd_work_stealing_deque_push_bottom(wsd_work_stealing_deque_t* d, void* p) {
+  int i = dq_enter(d, "push_bottom");
+  __real_wsd_work_stealing_deque_push_bottom(d, p);
+  if (i >= 0) dqs[i].in = -1;
+}
+void* __wrap_wsd_work_stealing_deque_pop_bottom(wsd_work_stealing_deque_t* d) {
+  int i = dq_enter(d, "pop_bottom");
+  void* r = __real_wsd_work_stealing_deque_pop_bottom(d);
+  if (i >= 0) dqs[i].in = -1;
+  return r;
+}
+
 // replica of the private scheduler struct's leading fields (src/fiber_scheduler_wsd.c)
 typedef struct {
   wsd_work_stealing_deque_t* queue_one;
